@@ -98,6 +98,12 @@ def model_part(ck, tier):
     if r.violated:
         ck.violation("spec: AdvanceArith %s" % r.violated, {"violated": r.violated}, site="spec")
     must_pass(r, "MC_AdvanceArith")
+    from harness.core import run_apalache
+    ra = run_apalache("APA_AdvanceArith")          # the same identities for EVERY n >= 0 (swap intervals 1..40), SMT over unbounded integers
+    ck.parts["advance_arith_unbounded"] = {"tool": "apalache-mc 0.58 (symbolic, unbounded integers)", "cmd": ra["cmd"], "outcome": ra["outcome"],
+                                           "wall_s": ra["wall_s"], "covers": "all n >= 0; swap_interval 1..40; chain granularity 100"}
+    if not ra["ok"]:
+        ck.violation("spec: AdvanceArith (unbounded, Apalache)", {"outcome": ra["outcome"]}, site="spec")
     ck.tlc(r, "MC_AdvanceArith")
     pairs_part(ck, tier)
 
